@@ -167,6 +167,19 @@ def family_body_endings():
                 out.append([T([W(0, [W(0, e, a2), S], a1)], final=[P])])
         out.append([W(0, [S] + e, True)])
         out.append([W(0, e, False), S])
+    # loops INSIDE an outer with, whose body holds an inner with that ends in a conditional jump
+    loop_endings = endings + [
+        [If([K("continue")])], [If([K("break")])], [If([K("continue")], [P])], [If([K("break")], [S])],
+        [If([If([K("continue")])])], [T([If([K("continue")])], final=[P])], [If([K("continue")]), If([K("break")])],
+    ]
+    for e in loop_endings:
+        for a1 in (False, True):
+            for a2 in (False, True):
+                for loop in (For, While):
+                    out.append([W(0, [loop([W(0, [S] + e, a2)])], a1), S])
+                    out.append([W(0, [loop([W(0, e, a2), S])], a1)])
+        out.append([T([For([W(0, [S] + e, True)])], final=[S])])
+        out.append([W(0, [W(0, [For([W(0, e, True)])], True)], False)])
     return out
 
 
@@ -337,7 +350,7 @@ def render(prog, carrier, running=False, first_line=1, py=(3, 12)):
     head = {"gen": "def prog(env):", "func": "def prog(env):", "coro": "async def prog(env):",
             "agen": "async def prog(env):"}[carrier]
     r.lines.append(head)
-    r.lines.append("    kname = 'kn'; kzero = 0")
+    r.lines.append("    kname = 'kn'; kzero = 0; unset = None")
     r.lines.append("    def lfn(*a): return env.ns")
     if carrier == "agen":
         r.lines.append("    if env.never: yield 0")
